@@ -98,7 +98,7 @@ theorem ok_bind {α β ε : Type} (a : α) (f : α → Except ε β) : (Except.o
 /-- closed form of the encoder model -/
 theorem toTree_eq (fin : F → Bool) (g : Geom F) :
     toTree fin g = if supported g then (if allFinite fin g then .ok (docOf g) else .error .nonFinite)
-                   else .error .unsupported := by
+                   else if isNil g then .error .panicNil else .error .unsupported := by
   cases g with
   | point p =>
     simp only [toTree, toGeoJSON, ok_bind]
@@ -124,9 +124,9 @@ theorem toTree_eq (fin : F → Bool) (g : Geom F) :
     simp only [toTree, toGeoJSON, ok_bind]
     rw [marshal_eq fin ⟨"MultiPolygon", .c4 (pointsssCoordinates ps)⟩ _ _ (marshal4_eq fin _)]
     simp [supported, allFinite, docOf, all_pointsssCoordinates]
-  | collection gs => simp [toTree, toGeoJSON, supported, bind, Except.bind]
-  | bounds a b => simp [toTree, toGeoJSON, supported, bind, Except.bind]
-  | nil => simp [toTree, toGeoJSON, supported, bind, Except.bind]
+  | collection gs => simp [toTree, toGeoJSON, supported, isNil, bind, Except.bind]
+  | bounds a b => simp [toTree, toGeoJSON, supported, isNil, bind, Except.bind]
+  | nil => simp [toTree, toGeoJSON, supported, isNil, bind, Except.bind]
 
 /-! ### decoding the trees back -/
 
